@@ -515,3 +515,56 @@ Lemma self_diff_zero_lemma p r g i :
 Proof.
   intros M W R. destruct (diff_subtracts_lemma p p r g i M W W R) as [k H]. exists k. lia.
 Qed.
+
+(* ------------------------------------------------------------------ CompatibilizeSampleTypes aligns columns by name *)
+Lemma remap_of_nth names : forall st rm j t,
+  remap_of names st = Some rm -> nth_error st j = Some t ->
+  exists i, index_of t names 0%nat = Some i /\ nth_error rm j = Some i.
+Proof.
+  induction st as [|a r IH]; intros rm j t H N; [destruct j; discriminate|].
+  simpl in H. destruct (index_of a names 0%nat) as [ia|] eqn:E; [|discriminate].
+  destruct (remap_of names r) as [l|] eqn:R; [|discriminate]. inversion H. subst rm.
+  destruct j; simpl in N.
+  - inversion N. subst. exists ia. split; [exact E | reflexivity].
+  - apply (IH l j t eq_refl N).
+Qed.
+
+Lemma val_at_remap rm s j i : nth_error rm j = Some i -> val_at j (remap_sample rm s) = val_at i s.
+Proof.
+  intros H. unfold val_at, remap_sample. simpl.
+  revert j H. induction rm as [|a r IH]; intros j H; [destruct j; discriminate|].
+  destruct j; simpl in *; [inversion H; reflexivity | apply IH, H].
+Qed.
+
+(* compat_aligns_columns: the result has the same samples in the same order (none dropped, stack
+   identity untouched) and column j of the result is the column of the profile that carries the
+   j-th common type's NAME *)
+Lemma compat_aligns_lemma st p p' :
+  compat_one st p = Ok p' ->
+  exists f, p_sample p' = map f (p_sample p)
+    /\ (forall s, key_eqb (f s) s = true)
+    /\ forall j t, nth_error st j = Some t ->
+         exists i, index_of t (type_names p) 0%nat = Some i
+                   /\ (forall s, val_at j (f s) = val_at i s)
+                   /\ nth j (p_sampletype p') dummy_vt = nth i (p_sampletype p) dummy_vt.
+Proof.
+  unfold compat_one. destruct (remap_of (type_names p) st) as [rm|] eqn:R; [|discriminate].
+  destruct (is_identity_from 0 rm && Nat.eqb (List.length st) (List.length (p_sampletype p))) eqn:I.
+  - intros H. inversion H. subst p'. exists (fun s => s). split; [symmetry; apply map_id|].
+    split; [apply key_eqb_refl|].
+    intros j t N. destruct (remap_of_nth _ st rm j t R N) as [i [E Nj]].
+    apply andb_true_iff in I as [I _].
+    assert (forall k l jj ii, is_identity_from k l = true -> nth_error l jj = Some ii -> ii = (k + jj)%nat) as ID.
+    { intros k l. revert k. induction l as [|a r IH]; intros k jj ii Hid Hn; [destruct jj; discriminate|].
+      simpl in Hid. apply andb_true_iff in Hid as [H1 H2]. apply Nat.eqb_eq in H1. subst a.
+      destruct jj; simpl in Hn; [inversion Hn; lia|]. rewrite (IH (S k) jj ii H2 Hn). lia. }
+    pose proof (ID 0%nat rm j i I Nj) as Eq. simpl in Eq. subst i.
+    exists j. split; [exact E|]. split; [intros s; reflexivity | reflexivity].
+  - intros H. inversion H. subst p'. clear H. exists (remap_sample rm). cbn [p_sample set_samples].
+    split; [reflexivity|]. split; [intros s; unfold key_eqb; simpl; apply (key_eqb_refl s)|].
+    intros j t N. destruct (remap_of_nth _ st rm j t R N) as [i [E Nj]].
+    exists i. split; [exact E|]. split; [intros s; apply val_at_remap, Nj|].
+    cbn [p_sampletype set_samples set_types].
+    clear - Nj. revert j Nj. induction rm as [|a r IH]; intros j Nj; [destruct j; discriminate|].
+    destruct j; simpl in *; [inversion Nj; reflexivity | apply IH, Nj].
+Qed.
